@@ -26,17 +26,28 @@ import sys
 import threading
 from typing import Any, Dict, List, Optional, Tuple
 
-from ..core import Ctx, MachineryError, chunks
+from ..core import Ctx, MachineryError, chunks, load_known_findings
 
 BAD, CYCLIC = [0], [0, 0]
-INVARIANTS = ["MroIsC3", "InconsistentReported", "RefLaws", "FindIsLookup", "SourcesAreOverridden", "DocIsInherited"]
+INVARIANTS = ["MroIsC3", "InconsistentReported", "RefLaws", "FindIsLookup", "SourcesAreOverridden", "DocIsInherited",
+              "EarlyIsLookupOrKF"]
+KF_EARLY = "early-lookup-depth-first"
+
+
+def early_order() -> str:
+    """What the model assumes Class.mro() answers before post-processing: the code as it is while the finding is open,
+    the repaired behaviour once known_findings.json says it is fixed (VERIF_C05_EARLY overrides: used to try the fix)."""
+    if os.environ.get("VERIF_C05_EARLY"):
+        return os.environ["VERIF_C05_EARLY"]
+    st = [f.get("status") for f in load_known_findings("C05") if f.get("id") == KF_EARLY]
+    return "c3" if st and st[0] == "fixed" else "allbases"
 
 
 def cfg_text(source: str, maxn: int, docstates: List[str], invariants: bool = True) -> str:
     inv = "".join(f"INVARIANT {i}\n" for i in INVARIANTS) if invariants else ""
     ds = "{" + ", ".join(json.dumps(d) for d in docstates) + "}"
     return (f"SPECIFICATION Spec\nCONSTANTS MaxN = {maxn}\n          Source = \"{source}\"\n"
-            f"          DocStates = {ds}\nCONSTRAINT Emit\n{inv}")
+            f"          DocStates = {ds}\n          EarlyOrder = \"{early_order()}\"\nCONSTRAINT Emit\n{inv}")
 
 
 # ----------------------------------------------------------------------------------- rendering a case
@@ -45,9 +56,11 @@ def subscripted(h: int, c: int, j: int) -> bool:
     return (h * 7 + c * 3 + j) % 4 == 0
 
 
-def body_lines(tag: str, state: str) -> List[str]:
+def body_lines(tag: str, state: str, nested: bool = False) -> List[str]:
     if state == "absent":
         return ["    pass"]
+    if nested:            # the member is a nested class
+        return ["    class f:", {"nodoc": "        pass", "doc": f'        """doc of {tag}"""', "empty": '        ""'}[state]]
     if state == "nodoc":
         return ["    def f(self):", "        pass"]
     if state == "doc":
@@ -62,6 +75,13 @@ def layout_of(rec: Dict[str, Any]) -> Dict[str, Any]:
     return rec.get("layout") or {"kind": "single"}
 
 
+def early_classes(rec: Dict[str, Any]) -> List[int]:
+    """classes through which `C.f` is a legal Python expression (spec: consistent and the lookup finds a definition)"""
+    if rec.get("early", "none") == "none":
+        return []
+    return [c for c in range(1, rec["n"] + 1) if rec["c3"][c - 1] not in (BAD, CYCLIC) and rec["find_ref"][c - 1]]
+
+
 def render_case(h: int, rec: Dict[str, Any]) -> Dict[str, Any]:
     """
     -> {"modules": [(modname | None, [lines])], "where": {c: (module key, class name, line offset in module text)}}
@@ -69,6 +89,7 @@ def render_case(h: int, rec: Dict[str, Any]) -> Dict[str, Any]:
     """
     n, bases, member = rec["n"], rec["bases"], rec["member"]
     lay = layout_of(rec)
+    early = rec.get("early", "none")
     cname = lambda c: f"K{h}_{c}"
     if lay["kind"] == "single":
         lines: List[str] = []
@@ -77,7 +98,14 @@ def render_case(h: int, rec: Dict[str, Any]) -> Dict[str, Any]:
             bs = [cname(b) + ("[int]" if subscripted(h, c, j) else "") for j, b in enumerate(bases[c - 1])]
             where[c] = (None, cname(c), len(lines) + 1)
             lines.append(f"class {cname(c)}({', '.join(bs)}):" if bs else f"class {cname(c)}:")
-            lines += body_lines(cname(c), member[c - 1])
+            lines += body_lines(cname(c), member[c - 1], nested=(early == "nested"))
+        # early dotted lookups through every class Python can look the member up in, AFTER the class statements:
+        # they are evaluated while the module is analysed, before any MRO is computed
+        for c in early_classes(rec):
+            if early == "alias":
+                lines.append(f"a{h}_{c} = {cname(c)}.f")
+            elif early == "nested":
+                lines += [f"class X{h}_{c}({cname(c)}.f):", "    pass"]
         return {"modules": [(None, lines)], "where": where}
     if lay["kind"] == "graph":
         # one class per module, plain `import`: no processing is triggered, modules are processed in the order added
@@ -293,7 +321,20 @@ def observe_batch(batch: List[Tuple[int, Dict[str, Any]]]) -> List[Dict[str, Any
             o_inh.append([ix(chain[0]) for chain in util.nested_bases(cls)
                           if any(a.name == "f" for a in util.unmasked_attrs(chain))])
             o_first.append([b is not None for b in cls._initialbaseobjects])
-        out.append({"h": h, "mro": o_mro, "warn": o_warn, "find": o_find, "src": o_src, "doc": o_doc,
+        o_early = [0] * n
+        for c in early_classes(rec):
+            modname = where[c][0]
+            if rec["early"] == "alias":
+                full = system.allobjects[modname].expandName(f"a{h}_{c}")
+                tgt = system.allobjects.get(full)
+                o_early[c - 1] = ix(tgt.parent) if tgt is not None else -1
+            else:
+                x = system.allobjects.get(f"{modname}.X{h}_{c}")
+                bo = x.baseobjects if isinstance(x, model.Class) else []
+                o_early[c - 1] = ix(bo[0].parent) if (len(bo) == 1 and bo[0] is not None) else -1
+                if o_early[c - 1] > 0 and [id(y) for y in x.mro()] != [id(x), id(bo[0])]:
+                    o_early[c - 1] = -1
+        out.append({"h": h, "early": o_early, "mro": o_mro, "warn": o_warn, "find": o_find, "src": o_src, "doc": o_doc,
                     "doctext": o_doctext, "inherited": o_inh, "overrides": o_ovr, "first": o_first, "present": o_present,
                     "where": {str(c): list(w) for c, w in where.items()}})
     return out
@@ -394,6 +435,7 @@ def evaluate_case(rec: Dict[str, Any], obs: Dict[str, Any]) -> Tuple[List[Tuple[
     n = rec["n"]
     failed: List[Tuple[str, int, Any, Any]] = []
     drift: List[Tuple[str, int, Any, Any]] = []
+    nested = rec.get("early", "none") == "nested"     # the member is a class: docsources / docstring inheritance do not apply
     for c in range(1, n + 1):
         i = c - 1
         ref = rec["c3"][i]
@@ -412,7 +454,10 @@ def evaluate_case(rec: Dict[str, Any], obs: Dict[str, Any]) -> Tuple[List[Tuple[
             want_inh = [rec["find_ref"][i]] if rec["find_ref"][i] else []
             if obs["inherited"][i] != want_inh:
                 failed.append(("InheritedTable", c, want_inh, obs["inherited"][i]))
-            if rec["member"][i] != "absent":
+            if c in early_classes(rec) and obs["early"][i] != rec["find_ref"][i]:
+                failed.append(("EarlyAliasIsLookup" if rec["early"] == "alias" else "EarlyBaseIsLookup", c,
+                               rec["find_ref"][i], obs["early"][i]))
+            if rec["member"][i] != "absent" and not nested:
                 if obs["src"][i] != rec["src_ref"][i]:
                     failed.append(("SourcesAreOverridden", c, rec["src_ref"][i], obs["src"][i]))
                 want_ov = rec["src_ref"][i][1] if len(rec["src_ref"][i]) > 1 else 0
@@ -436,10 +481,12 @@ def evaluate_case(rec: Dict[str, Any], obs: Dict[str, Any]) -> Tuple[List[Tuple[
             drift.append(("warn", c, rec["warn"][i], obs["warn"][i]))
         if obs["find"][i] != rec["find_pd"][i]:
             drift.append(("find", c, rec["find_pd"][i], obs["find"][i]))
-        if obs["src"][i] != rec["src_pd"][i]:
+        if not nested and obs["src"][i] != rec["src_pd"][i]:
             drift.append(("docsources", c, rec["src_pd"][i], obs["src"][i]))
-        if obs["doc"][i] != rec["doc_pd"][i]:
+        if not nested and obs["doc"][i] != rec["doc_pd"][i]:
             drift.append(("get_docstring", c, rec["doc_pd"][i], obs["doc"][i]))
+        if c in early_classes(rec) and obs["early"][i] != rec["early_pd"][i]:
+            drift.append(("early_lookup", c, rec["early_pd"][i], obs["early"][i]))
         want_first = [rec["born"][b - 1] < rec["born"][i] for b in rec["bases"][i]]
         if obs["first"][i] != want_first:
             drift.append(("first_pass", c, want_first, obs["first"][i]))
@@ -452,15 +499,40 @@ def judge_case(ctx: Ctx, rec: Dict[str, Any], obs: Dict[str, Any], origin: str) 
         inv = failed[0][0]
         ctx.violation({"invariant": inv, "origin": origin,
                        "failed": [{"invariant": a, "class": b, "expected": e, "observed": o} for a, b, e, o in failed],
-                       "case": {k: rec[k] for k in ("n", "bases", "member", "born") if k in rec} | {"layout": rec.get("layout"), "h": obs["h"]},
+                       "case": {k: rec[k] for k in ("n", "bases", "member", "born", "early") if k in rec} | {"layout": rec.get("layout"), "h": obs["h"]},
                        "reference": {"c3": rec["c3"], "own": rec["own"], "find_ref": rec["find_ref"],
                                      "src_ref": rec["src_ref"], "doc_ref": rec["doc_ref"]},
-                       "observed": {k: obs[k] for k in ("mro", "warn", "find", "src", "doc", "inherited", "overrides")},
+                       "observed": {k: obs[k] for k in ("mro", "warn", "find", "src", "doc", "inherited", "overrides", "early")},
                        "key": f"{origin}:{sorted(set(a for a, _, _, _ in failed))}:{rec['bases']}:{rec['member'] if origin != 'enum' else ''}"[:300]})
-    if drift and not failed:
+    if drift and (not failed or any(d[0] == "early_lookup" for d in drift)):
         ctx.drift_note({"origin": origin, "bases": rec["bases"], "member": rec["member"], "born": rec["born"],
                         "diff": [{"what": a, "class": b, "model": e, "real": o} for a, b, e, o in drift[:4]]})
-    return (1 if failed else 0, 1 if (drift and not failed) else 0)
+    return (1 if failed else 0, 1 if (drift and (not failed or any(d[0] == "early_lookup" for d in drift))) else 0)
+
+
+def depth_first_owner(bases: List[List[int]], member: List[str], c: int) -> int:
+    """first definition of the member in depth-first, left-to-right order over the bases (Class.allbases)"""
+    if member[c - 1] != "absent":
+        return c
+    for b in bases[c - 1]:
+        o = depth_first_owner(bases, member, b)
+        if o:
+            return o
+    return 0
+
+
+def kf_early_lookup_depth_first(w: Dict[str, Any]) -> bool:
+    """Python twin of MRO!KF_EarlyLookupDepthFirst: every failed clause is an EARLY lookup through a class whose answer is
+    the first definition in depth-first order over the bases instead of the first along the MRO."""
+    if not w.get("failed"):
+        return False
+    case = w["case"]
+    for f in w["failed"]:
+        if f["invariant"] not in ("EarlyAliasIsLookup", "EarlyBaseIsLookup"):
+            return False
+        if f["observed"] == f["expected"] or f["observed"] != depth_first_owner(case["bases"], case["member"], f["class"]):
+            return False
+    return True
 
 
 def sort_key(rec: Dict[str, Any]) -> str:
@@ -548,6 +620,8 @@ def tlc_cases(ctx: Ctx, source: str, maxn: int, docstates: List[str], out: Dict[
 
 
 def run(ctx: Ctx) -> int:
+    ctx.register_matcher(KF_EARLY, kf_early_lookup_depth_first)
+    ctx.extra["model_early_order"] = early_order()
     rng = random.Random(ctx.seed)
     docstates = ["absent", "nodoc", "doc"] if ctx.quick else ["absent", "nodoc", "doc", "empty"]
     results: Dict[str, Any] = {}
@@ -597,9 +671,14 @@ def run(ctx: Ctx) -> int:
                     got[i]["layout"] = x["layout"]
                     dst.append(got[i])
 
-    all_cases = enum + members + graph + file_cases + file_graphs
+    # the member placements twice more with early dotted lookups through the classes (alias statements / a nested
+    # class used as a base), which pydoctor evaluates during analysis, before any MRO exists
+    m_alias = [dict(r, early="alias") for r in members]
+    m_nested = [dict(r, early="nested") for r in members]
+    all_cases = enum + members + graph + file_cases + file_graphs + m_alias + m_nested
     origins = (["enum"] * len(enum) + ["members"] * len(members) + ["graph"] * len(graph)
-               + ["modules"] * len(file_cases) + ["graph-random"] * len(file_graphs))
+               + ["modules"] * len(file_cases) + ["graph-random"] * len(file_graphs)
+               + ["members-alias"] * len(m_alias) + ["members-nested"] * len(m_nested))
     # ---- the spec's reference against CPython (machinery)
     quirk = cross_check_cpython(ctx, enum + members + file_cases)
     ctx.extra["cpython_type_cross_checked_cases"] = len(enum) + len(members) + len(file_cases)
@@ -686,12 +765,15 @@ def run(ctx: Ctx) -> int:
 
 
 def replay(ctx: Ctx, path: str) -> int:
+    ctx.register_matcher(KF_EARLY, kf_early_lookup_depth_first)
     w = json.load(open(path))
     case = w["case"]
     rec = {"n": case["n"], "bases": case["bases"], "member": case["member"], "born": case["born"], **w["reference"],
            # model fields are irrelevant for the verdict
            "mro": w["observed"]["mro"], "warn": w["observed"]["warn"], "find_pd": w["observed"]["find"],
-           "src_pd": w["observed"]["src"], "doc_pd": w["observed"]["doc"]}
+           "src_pd": w["observed"]["src"], "doc_pd": w["observed"]["doc"], "early_pd": w["observed"].get("early", [])}
+    if case.get("early"):
+        rec["early"] = case["early"]
     if case.get("layout"):
         rec["layout"] = case["layout"]
     obs = observe_batch([(case["h"], rec)])[0]
